@@ -146,7 +146,8 @@ PROPS["C03"] = dict(
     assumptions=["reference semantics is right", "graphs rejected by Check are outside the domain (counted under labels)"],
     jobs=[job("composition", "^TestComposition$", (4, 16), (8000, 75000), (600, 3000)),
           job("allOf-order", "^TestAllOfOrder$", (1, 4), (1500, 20000), (600, 3000)),
-          job("shadowed-inner-type", "^TestInnerTypeDoesNotRebindRoot$", (1, 2), (400, 6000), (600, 3000))],
+          job("shadowed-inner-type", "^TestInnerTypeDoesNotRebindRoot$", (1, 2), (400, 6000), (600, 3000)),
+          job("truth-tables", "^TestAlternativeTables$", (1, 4), (1500, 40000), (600, 3000))],
 )
 PROPS["C04"] = dict(
     pkg="c04", level="exploration",
@@ -192,7 +193,8 @@ PROPS["C09"] = dict(
     assumptions=["a wall-clock budget of 20 s per call is only used to turn a hang into a recorded case; hitting it is reported with the case (never seen on the pinned tree)"],
     jobs=[job("graphs", "^TestTypeGraphs$", (4, 16), (6000, 200000), (900, 3000)),
           job("layered", "^TestLayeredGraphs$", (1, 4), (120, 3000), (900, 3000)),
-          job("one-name-two-tables", "^TestOneNameTwoTables$", (1, 2), (300, 6000), (600, 3000))],
+          job("one-name-two-tables", "^TestOneNameTwoTables$", (1, 2), (300, 6000), (600, 3000)),
+          job("inherited-cycles", "^TestInheritedCycles$", (1, 2), (400, 8000), (600, 3000))],
 )
 PROPS["C16"] = dict(
     pkg="c16", level="exploration",
@@ -269,7 +271,7 @@ PROPS["C17"] = dict(
           "validation: rule-free schemas x instances x one planted violation, non-trivial = planted at depth>=1; distinct by the inputs"),
     assumptions=["the planted violation is the only deviation (re-checked with the reference shape decider; documents with duplicate keys are skipped)"],
     jobs=[job("render-exhaustive", "^TestRenderExhaustive$", (1, 1), (1, 1), (900, 3000)),
-          job("generated", "^Test(RenderRandom|ParsePositions|ParsePositionsOfTheOtherScanners|ValidationPositions)$", (4, 16), (6000, 400000), (900, 3000))],
+          job("generated", "^Test(RenderRandom|ParsePositions|ParsePositionsOfTheOtherScanners|ValidationPositions|UnknownKeyUnderAlternatives)$", (4, 16), (6000, 400000), (900, 3000))],
 )
 PROPS["C07"] = dict(
     pkg="c07", level="exploration", exhaustive_claim=False,
